@@ -21,14 +21,22 @@
 
     Deviations of the value-level models from the core primitives (documented in TierBridgeLemmas.v):
     (D1) JSON Patch detaches / inserts array elements with Utils' OWN detach_item_from_array /
-    insert_item_in_array; their list functions are related here to the forest model of the core functions
-    ([TB_detach_index], [TB_insert_in_range], [TB_insert_past_end_differs]: the core function appends past the
-    end, the Utils function refuses), but their heap-level pointer surgery is NOT covered by C06 and no
-    heap-level model of them exists: that part of the presupposition remains open.  (D2) overwrite_item has
-    no core counterpart.  (D3) allocation failure is not modelled at Tier B: add / replace are stated for a
-    successful copy of the key. *)
+    insert_item_in_array, which C06 does not cover.  TierBridgeUtilsDefs.v transliterates them on the heap;
+    [TB_utils_*] prove that on a well-formed heap they compute what cJSON_DetachItemFromArray /
+    cJSON_InsertItemInArray compute — the latter within 0..length; past the end the Utils function refuses
+    and touches nothing while the core function appends ([TB_insert_past_end_differs], [TB_utils_insert_refused]).
+    (D2) overwrite_item (replacement of the document root in place) has no core counterpart and no forest-level
+    model: that call remains presupposed.  (D3) allocation failure is not modelled at Tier B: add / replace are
+    stated for a successful copy of the key.
+
+    Sections 7-8 compose the two halves END TO END (heap-level code on [WF h F] |-> value-level primitive on
+    the reified container, no [spec_*] in the statement).  For the primitives that release or allocate strings
+    this needs a NO-ALIASING hypothesis (no remaining node borrows a released block) that a value-level tree
+    cannot express; it holds for trees that own all their strings ([TB_no_aliasing_*]). *)
 From CJ Require Import Base Dbl Heap Forest ForestLemmas CoreSpec CoreRefineDupBase CoreRefineDupTree CoreRefineDupValue.
-From CJ Require Import TierBridgeDefs TierBridgeSort TierBridgeForest TierBridgeLemmas TierBridgeSortHeap TierBridge.
+From CJ Require Import CoreDefs CoreRefineBase CoreRefineFrame CoreRefineAddObject CoreRefineObject.
+From CJ Require Import TierBridgeDefs TierBridgeSort TierBridgeForest TierBridgeLemmas TierBridgeSortHeap
+  TierBridgeUtilsDefs TierBridgeUtils TierBridgeEndToEnd TierBridgeEndToEndStr TierBridge.
 From CJ Require Tree CompareDefs PointerDefs PatchDefs MergeDefs SortDefs SortSpec SortChain SortProofs CoreRefineDupForest.
 From CJ.gen Require Import Constants.
 From stdpp Require Import gmap.
@@ -165,7 +173,37 @@ Theorem TB_presupposition :
   (* 14. constructors *)
   (forall St id ty, reify St (T id (mkRD ty None 0 dzero None None) []) = MergeDefs.mp_new_item ty) /\
   (forall St id b (s : bytes), St !! b = Some (s ++ [0]) -> SortSpec.zfree s ->
-     reify St (T id (mkRD c_cJSON_String (Some b) 0 dzero None None) []) = PatchDefs.create_string s).
+     reify St (T id (mkRD c_cJSON_String (Some b) 0 dzero None None) []) = PatchDefs.create_string s) /\
+  (* 15. Utils' own detach_item_from_array on the heap: refines the forest model of the core function
+         (clause 8 then gives the value-level reading) *)
+  (forall h F p d cs which,
+     WF h F -> find_tree p F = Some (T p d cs) -> is_ref d = false -> 0 <= which ->
+     detach_item_from_array (Some p) which h = cJSON_DetachItemFromArray (Some p) which h /\
+     match cs !! Z.to_nat which with
+     | Some tx =>
+         let F' := set_children p (delete (Z.to_nat which) cs) F ++ [tx] in
+         spec_detach_index F (Some p) which = (F', Some (tid tx)) /\
+         detach_item_from_array (Some p) which h = Ret (Some (tid tx), upd_maps h (heap_lnk_of F') (heap_dat_of F')) /\
+         WF (upd_maps h (heap_lnk_of F') (heap_dat_of F')) F'
+     | None =>
+         spec_detach_index F (Some p) which = (F, None) /\ detach_item_from_array (Some p) which h = Ret (None, h)
+     end) /\
+  (* 16. Utils' own insert_item_in_array on the heap, index within 0..length: as the core function *)
+  (forall h F p x tx d cs which,
+     WF h F -> p <> x -> find_root x F = Some tx -> find_tree p (remove_root x F) = Some (T p d cs) ->
+     is_ref d = false -> 0 <= which <= Z.of_nat (length cs) ->
+     let F' := set_children p (if (Z.to_nat which <? length cs)%nat then insert_at (Z.to_nat which) tx cs else cs ++ [tx])
+                 (remove_root x F) in
+     insert_item_in_array (Some p) which (Some x) h = cJSON_InsertItemInArray (Some p) which (Some x) h /\
+     spec_insert F (Some p) which (Some x) = (F', true) /\
+     insert_item_in_array (Some p) which (Some x) h = Ret (true, upd_maps h (heap_lnk_of F') (heap_dat_of F')) /\
+     WF (upd_maps h (heap_lnk_of F') (heap_dat_of F')) F') /\
+  (* 17. … and past the end it refuses and touches nothing (the core function appends) *)
+  (forall h F p x tx d cs which,
+     WF h F -> p <> x -> find_root x F = Some tx -> find_tree p (remove_root x F) = Some (T p d cs) ->
+     is_ref d = false -> Z.of_nat (length cs) < which ->
+     insert_item_in_array (Some p) which (Some x) h = Ret (false, h) /\
+     (spec_insert F (Some p) which (Some x)).2 = true).
 Proof. exact tier_b_presupposition. Qed.
 Print Assumptions TB_presupposition.
 
@@ -469,3 +507,216 @@ Theorem TB_nonvacuous_duplicate :
   MergeDefs.mp_Duplicate (Some (reify (h_str ex_h) m2)) = Some (reify (h_str ex_h) ex_copy).
 Proof. exact ex_duplicate. Qed.
 Print Assumptions TB_nonvacuous_duplicate.
+
+(** ------------------------------------------------------------------ 7. Utils' own pointer surgery (D1), heap level *)
+
+(** on a well-formed heap Utils' detach_item_from_array IS cJSON_DetachItemFromArray *)
+Theorem TB_utils_detach_is_core : forall h F p d cs which,
+  WF h F -> find_tree p F = Some (T p d cs) -> is_ref d = false -> 0 <= which ->
+  detach_item_from_array (Some p) which h = cJSON_DetachItemFromArray (Some p) which h.
+Proof. exact u_detach_eq_core. Qed.
+Print Assumptions TB_utils_detach_is_core.
+
+Theorem TB_utils_detach : forall h F p d cs which tx,
+  WF h F -> find_tree p F = Some (T p d cs) -> is_ref d = false -> 0 <= which ->
+  cs !! Z.to_nat which = Some tx ->
+  let F' := set_children p (delete (Z.to_nat which) cs) F ++ [tx] in
+  spec_detach_index F (Some p) which = (F', Some (tid tx)) /\
+  detach_item_from_array (Some p) which h = Ret (Some (tid tx), upd_maps h (heap_lnk_of F') (heap_dat_of F')) /\
+  WF (upd_maps h (heap_lnk_of F') (heap_dat_of F')) F'.
+Proof. exact u_detach_sim. Qed.
+Theorem TB_utils_detach_refused : forall h F p d cs which,
+  WF h F -> find_tree p F = Some (T p d cs) -> is_ref d = false -> 0 <= which ->
+  cs !! Z.to_nat which = None ->
+  spec_detach_index F (Some p) which = (F, None) /\ detach_item_from_array (Some p) which h = Ret (None, h).
+Proof. exact u_detach_refused. Qed.
+
+(** … and insert_item_in_array IS cJSON_InsertItemInArray for an index within the array or at its end *)
+Theorem TB_utils_insert_is_core : forall h F p x tx d cs,
+  WF h F -> p <> x -> find_root x F = Some tx -> find_tree p (remove_root x F) = Some (T p d cs) -> is_ref d = false ->
+  forall which, 0 <= which <= Z.of_nat (length cs) ->
+  insert_item_in_array (Some p) which (Some x) h = cJSON_InsertItemInArray (Some p) which (Some x) h.
+Proof. exact u_insert_eq_core. Qed.
+Print Assumptions TB_utils_insert_is_core.
+Theorem TB_utils_insert_before : forall h F p x tx d cs,
+  WF h F -> p <> x -> find_root x F = Some tx -> find_tree p (remove_root x F) = Some (T p d cs) -> is_ref d = false ->
+  forall which, 0 <= which -> (Z.to_nat which < length cs)%nat ->
+  let F' := set_children p (insert_at (Z.to_nat which) tx cs) (remove_root x F) in
+  spec_insert F (Some p) which (Some x) = (F', true) /\
+  insert_item_in_array (Some p) which (Some x) h = Ret (true, upd_maps h (heap_lnk_of F') (heap_dat_of F')) /\
+  WF (upd_maps h (heap_lnk_of F') (heap_dat_of F')) F'.
+Proof. exact u_insert_sim_before. Qed.
+Theorem TB_utils_insert_at_end : forall h F p x tx d cs,
+  WF h F -> p <> x -> find_root x F = Some tx -> find_tree p (remove_root x F) = Some (T p d cs) -> is_ref d = false ->
+  forall which, which = Z.of_nat (length cs) ->
+  let F' := set_children p (cs ++ [tx]) (remove_root x F) in
+  spec_insert F (Some p) which (Some x) = (F', true) /\
+  insert_item_in_array (Some p) which (Some x) h = Ret (true, upd_maps h (heap_lnk_of F') (heap_dat_of F')) /\
+  WF (upd_maps h (heap_lnk_of F') (heap_dat_of F')) F'.
+Proof. exact u_insert_sim_append. Qed.
+(** past the end it refuses and touches nothing; cJSON_InsertItemInArray succeeds (appends) there *)
+Theorem TB_utils_insert_refused : forall h F p x tx d cs,
+  WF h F -> p <> x -> find_root x F = Some tx -> find_tree p (remove_root x F) = Some (T p d cs) -> is_ref d = false ->
+  forall which, Z.of_nat (length cs) < which ->
+  insert_item_in_array (Some p) which (Some x) h = Ret (false, h) /\
+  (spec_insert F (Some p) which (Some x)).2 = true.
+Proof. exact u_insert_refused. Qed.
+Print Assumptions TB_utils_insert_refused.
+(** the two stores of [c->prev = c->next = NULL] (unsequenced in C) commute *)
+Theorem TB_utils_final_stores_commute : forall (c v w : ptr) g,
+  (set_prev c v ;;; set_next c w) g = (set_next c w ;;; set_prev c v) g.
+Proof. exact stores_commute. Qed.
+
+(** ------------------------------------------------------------------ 8. end to end: heap-level code |-> value-level primitive *)
+
+Theorem TB_e2e_get_object_item : forall h F p d cs, WF h F -> find_tree p F = Some (T p d cs) -> is_ref d = false ->
+  forall nb (sn : bytes), KeysReadable h F -> nb ∈ h_live h -> h_str h !! nb = Some sn -> existsb (Z.eqb 0) sn = true ->
+  forall flag : bool,
+  exists r, get_object_item (Some p) (Some nb) flag h = Ret (r, h) /\
+            reify (h_str h) <$> (r ≫= fun x => find_tree x F) =
+            snd <$> CompareDefs.get_object_item (reify (h_str h) (T p d cs)) (Some (cstr sn)) flag.
+Proof. exact e2e_get_object_item. Qed.
+Print Assumptions TB_e2e_get_object_item.
+
+Theorem TB_e2e_get_array_item : forall h F p d cs, WF h F -> find_tree p F = Some (T p d cs) -> is_ref d = false ->
+  forall idx,
+  exists r, cJSON_GetArrayItem (Some p) idx h = Ret (r, h) /\
+            reify (h_str h) <$> (r ≫= fun x => find_tree x F) =
+            PointerDefs.nth_z (Tree.n_children (reify (h_str h) (T p d cs))) idx.
+Proof. exact e2e_get_array_item. Qed.
+Theorem TB_e2e_get_array_size : forall h F p d cs, WF h F -> find_tree p F = Some (T p d cs) -> is_ref d = false ->
+  cJSON_GetArraySize (Some p) h = Ret (v_array_size (reify (h_str h) (T p d cs)), h).
+Proof. exact e2e_get_array_size. Qed.
+
+(** array detach: the core function and Utils' own, one statement *)
+Theorem TB_e2e_detach_from_array : forall h F p d cs, WF h F -> find_tree p F = Some (T p d cs) -> is_ref d = false ->
+  forall idx, 0 <= idx ->
+  exists r h' F',
+    cJSON_DetachItemFromArray (Some p) idx h = Ret (r, h') /\
+    detach_item_from_array (Some p) idx h = Ret (r, h') /\
+    WF h' F' /\ h_str h' = h_str h /\
+    match v_detach_from_array (reify (h_str h) (T p d cs)) idx with
+    | Some (item, obj') =>
+        reify (h_str h) <$> find_tree p F' = Some obj' /\ reify (h_str h) <$> (r ≫= fun x => find_root x F') = Some item
+    | None => F' = F /\ r = None /\ h' = h
+    end.
+Proof. exact e2e_detach_from_array. Qed.
+Print Assumptions TB_e2e_detach_from_array.
+
+(** cJSON_DetachItemFromObject[CaseSensitive] = lookup, then detach via pointer *)
+Theorem TB_e2e_detach_from_object : forall h F p d cs, WF h F -> find_tree p F = Some (T p d cs) -> is_ref d = false ->
+  forall nb (sn : bytes), KeysReadable h F -> nb ∈ h_live h -> h_str h !! nb = Some sn -> existsb (Z.eqb 0) sn = true ->
+  forall flag : bool,
+  exists r h' F',
+    (to_detach <~ get_object_item (Some p) (Some nb) flag ;; cJSON_DetachItemViaPointer (Some p) to_detach) h = Ret (r, h') /\
+    WF h' F' /\ h_str h' = h_str h /\
+    (let '(item, obj') := MergeDefs.mp_DetachItemFromObject (reify (h_str h) (T p d cs)) (Some (cstr sn)) flag in
+     reify (h_str h) <$> find_tree p F' = Some obj' /\ reify (h_str h) <$> (r ≫= fun x => find_root x F') = item) /\
+    match v_detach_from_object (reify (h_str h) (T p d cs)) (cstr sn) flag with
+    | Some (item, obj') =>
+        reify (h_str h) <$> find_tree p F' = Some obj' /\ reify (h_str h) <$> (r ≫= fun x => find_root x F') = Some item
+    | None => F' = F /\ r = None /\ h' = h
+    end.
+Proof. exact e2e_detach_from_object. Qed.
+Print Assumptions TB_e2e_detach_from_object.
+Theorem TB_detach_entry_points : forall object name,
+  cJSON_DetachItemFromObject object name =
+  (to_detach <~ get_object_item object name false ;; cJSON_DetachItemViaPointer object to_detach) /\
+  cJSON_DetachItemFromObjectCaseSensitive object name =
+  (to_detach <~ get_object_item object name true ;; cJSON_DetachItemViaPointer object to_detach).
+Proof. exact cJSON_DetachItemFromObject_is. Qed.
+
+Theorem TB_e2e_add_to_array : forall h F p x d dx cs csx,
+  WF h F -> p <> x -> find_root x F = Some (T x dx csx) -> find_tree p (remove_root x F) = Some (T p d cs) -> is_ref d = false ->
+  exists h' F', cJSON_AddItemToArray (Some p) (Some x) h = Ret (true, h') /\ WF h' F' /\ h_str h' = h_str h /\
+                reify (h_str h) <$> find_tree p F' =
+                Some (v_add_to_array (reify (h_str h) (T p d cs)) (reify (h_str h) (T x dx csx))).
+Proof. exact e2e_add_to_array. Qed.
+
+(** insertion within the array or at its end: the Utils function and the core function, one statement *)
+Theorem TB_e2e_insert_in_array : forall h F p x d dx cs csx,
+  WF h F -> p <> x -> find_root x F = Some (T x dx csx) -> find_tree p (remove_root x F) = Some (T p d cs) -> is_ref d = false ->
+  forall which, 0 <= which <= Z.of_nat (length cs) ->
+  exists h' F',
+    insert_item_in_array (Some p) which (Some x) h = Ret (true, h') /\
+    cJSON_InsertItemInArray (Some p) which (Some x) h = Ret (true, h') /\
+    WF h' F' /\ h_str h' = h_str h /\
+    reify (h_str h) <$> find_tree p F' =
+    v_insert_in_array (reify (h_str h) (T p d cs)) which (reify (h_str h) (T x dx csx)).
+Proof. exact e2e_insert_in_array. Qed.
+Print Assumptions TB_e2e_insert_in_array.
+Theorem TB_e2e_insert_past_end : forall h F p x d dx cs csx,
+  WF h F -> p <> x -> find_root x F = Some (T x dx csx) -> find_tree p (remove_root x F) = Some (T p d cs) -> is_ref d = false ->
+  forall which, Z.of_nat (length cs) < which ->
+  insert_item_in_array (Some p) which (Some x) h = Ret (false, h) /\
+  v_insert_in_array (reify (h_str h) (T p d cs)) which (reify (h_str h) (T x dx csx)) = None /\
+  exists h' F', cJSON_InsertItemInArray (Some p) which (Some x) h = Ret (true, h') /\ WF h' F' /\ h_str h' = h_str h /\
+                reify (h_str h) <$> find_tree p F' =
+                Some (v_add_to_array (reify (h_str h) (T p d cs)) (reify (h_str h) (T x dx csx))).
+Proof. exact e2e_insert_past_end. Qed.
+
+(** cJSON_AddItemToObject: the key copy is allocated, the item's old owned key released; NO-ALIASING: no node
+    of the object, and no node of the item other than through its own key field, refers to the identity about
+    to be handed out or to the item's old owned key *)
+Theorem TB_e2e_add_to_object : forall (oracle : nat -> bool) h F p x sb d dx cs csx (s : bytes),
+  WF h F -> p <> x -> find_root x F = Some (T x dx csx) -> find_tree p (remove_root x F) = Some (T p d cs) -> is_ref d = false ->
+  Readable h sb -> h_str h !! sb = Some s -> oracle (h_req h) = false ->
+  (forall b, b ∈ str_blocks (T p d cs) ++ opt_list (rd_vstr dx) ++ (csx ≫= str_blocks) ->
+             b <> h_next h /\ b ∉ old_key dx) ->
+  exists h' F',
+    add_item_to_object oracle (Some p) (Some sb) (Some x) false h = Ret (true, h') /\ WF h' F' /\
+    reify (h_str h') <$> find_tree p F' =
+      Some (v_add_to_object (reify (h_str h) (T p d cs)) (cstr s) (reify (h_str h) (T x dx csx))) /\
+    v_add_to_object (reify (h_str h) (T p d cs)) (cstr s) (reify (h_str h) (T x dx csx)) =
+      MergeDefs.mp_AddItemToObject (reify (h_str h) (T p d cs)) (Some (cstr s)) (Some (reify (h_str h) (T x dx csx))).
+Proof. exact e2e_add_to_object. Qed.
+Print Assumptions TB_e2e_add_to_object.
+
+(** cJSON_DeleteItemFromObject[CaseSensitive]: everything the deleted member owns is released; NO-ALIASING: the
+    object that remains refers to no string the call releases *)
+Theorem TB_e2e_delete_from_object : forall h F p d cs nb (sn : bytes),
+  WF h F -> KeysReadable h F -> find_tree p F = Some (T p d cs) -> is_ref d = false ->
+  nb ∈ h_live h -> h_str h !! nb = Some sn -> existsb (Z.eqb 0) sn = true ->
+  forall flag : bool,
+  let F' := spec_delete_key (h_str h) F (Some p) (Some nb) flag in
+  (forall o', find_tree p F' = Some o' -> forall b, b ∈ str_blocks o' -> ~ released F F' b) ->
+  exists h',
+    (it <~ (to_detach <~ get_object_item (Some p) (Some nb) flag ;; cJSON_DetachItemViaPointer (Some p) to_detach) ;;
+     cJSON_Delete it) h = Ret (tt, h') /\
+    WF h' F' /\
+    reify (h_str h') <$> find_tree p F' =
+      Some (MergeDefs.mp_DeleteItemFromObject (reify (h_str h) (T p d cs)) (Some (cstr sn)) flag) /\
+    MergeDefs.mp_DeleteItemFromObject (reify (h_str h) (T p d cs)) (Some (cstr sn)) flag =
+      v_delete_from_object (reify (h_str h) (T p d cs)) (cstr sn) flag.
+Proof. exact e2e_delete_from_object. Qed.
+Print Assumptions TB_e2e_delete_from_object.
+
+(** the no-aliasing hypotheses hold for trees whose nodes own all their strings ([owns_strings]: no constant
+    key, no string reference) — every tree the parser and the utilities build *)
+Theorem TB_no_aliasing_delete : forall F F' p o',
+  find_tree p F' = Some o' -> owns_strings o' -> forall b, b ∈ str_blocks o' -> ~ released F F' b.
+Proof. exact owned_strings_not_released. Qed.
+Theorem TB_no_aliasing_add : forall h F p x d dx cs csx,
+  WF h F -> find_root x F = Some (T x dx csx) -> find_tree p (remove_root x F) = Some (T p d cs) ->
+  owns_strings (T p d cs) -> is_ref dx = false -> Forall owns_strings csx ->
+  forall b, b ∈ str_blocks (T p d cs) ++ opt_list (rd_vstr dx) ++ (csx ≫= str_blocks) ->
+            b <> h_next h /\ b ∉ old_key dx.
+Proof. exact add_hypothesis_of_owned. Qed.
+Print Assumptions TB_no_aliasing_add.
+
+(** non-vacuity at heap level: [ex_heap] (the canonical maps of [ex_F], string heap [ex_St], all node and key
+    blocks live library blocks, the name blocks live) satisfies [WF] and [KeysReadable]; the Utils functions and
+    sort_object run on it *)
+Theorem TB_nonvacuous_heap : WF ex_heap ex_F /\ KeysReadable ex_heap ex_F.
+Proof. exact (conj ex_heap_WF ex_heap_KeysReadable). Qed.
+Print Assumptions TB_nonvacuous_heap.
+Theorem TB_nonvacuous_heap_runs :
+  Forall (has_key (h_str ex_heap)) ex_members /\ is_ref ex_objd = false /\ is_ref (tdata ex_arr) = false /\
+  (exists h', detach_item_from_array (Some 4%positive) 0 ex_heap = Ret (Some 5%positive, h')) /\
+  detach_item_from_array (Some 4%positive) 2 ex_heap = Ret (None, ex_heap) /\
+  (exists h', insert_item_in_array (Some 4%positive) 1 (Some 7%positive) ex_heap = Ret (true, h')) /\
+  insert_item_in_array (Some 4%positive) 5 (Some 7%positive) ex_heap = Ret (false, ex_heap) /\
+  (exists h', cJSON_InsertItemInArray (Some 4%positive) 5 (Some 7%positive) ex_heap = Ret (true, h')) /\
+  (exists h', SortDefs.sort_object (SortDefs.sort_fuel 3) (Some 1%positive) true ex_heap = Ret (tt, h')).
+Proof. exact ex_heap_runs. Qed.
+Print Assumptions TB_nonvacuous_heap_runs.
